@@ -21,7 +21,7 @@ pub fn def() -> PropDef {
 
 fn meta(_ctx: &Ctx) -> EvidenceMeta {
     EvidenceMeta {
-        rule: "accepted modules (generated full profile with tagged functions, fixtures, real corpus) x {plain, GC}; non-trivial = imports of >=2 kinds precede local entities and >=1 function changed index between input and output; distinct by module bytes. Oracle: (parse time, inside on_parse) for every index of every index space (functions, types, tables, memories, globals, elements, data, locals per function) the returned id is resolved through the public Module accessors and its content must equal what the independent decode finds at that index; out-of-range indices must be errors. (emit time, inside CustomSection::data) for every live id the index returned by IdsToIndices must be the image of its input index under the independently verified renumbering bijection (types: same signature at that index).".into(),
+        rule: "accepted modules (generated full profile with tagged functions, fixtures, real corpus) x {plain, GC, synthetic names for anonymous items}; non-trivial = imports of >=2 kinds precede local entities and >=1 function changed index between input and output; distinct by module bytes. Oracle: (parse time, inside on_parse) for every index of every index space (functions, types, tables, memories, globals, elements, data, locals per function) the returned id is resolved through the public Module accessors and its content must equal what the independent decode finds at that index; out-of-range indices must be errors. (emit time, inside CustomSection::data) for every live id the index returned by IdsToIndices must be the image of its input index under the independently verified renumbering bijection (types: same signature at that index).".into(),
         assumptions: vec!["LocalFunction::original_range is used as the identity witness of a parsed body".into()],
         level: "exploration",
         exhaustive: false,
@@ -278,8 +278,10 @@ pub fn check(_ctx: &Ctx, input: &Input) -> CaseResult {
         return Ok(out);
     }
     let mut moved = false;
-    for do_gc in [false, true] {
-        let mut cfg = wal::Cfg::plain().to_config();
+    // the maps must not depend on configuration switches either: the third
+    // pass names anonymous items synthetically
+    for (do_gc, synthetic) in [(false, false), (true, false), (false, true)] {
+        let mut cfg = wal::Cfg { synthetic_names: synthetic, ..wal::Cfg::plain() }.to_config();
         let shared = spy::install(&mut cfg, hint.clone());
         let mut m = match wal::parse(&p.bytes, &cfg) {
             Ok(Ok(m)) => m,
@@ -296,7 +298,7 @@ pub fn check(_ctx: &Ctx, input: &Input) -> CaseResult {
             Some(i) => i,
             None => return Err(Failure::new("on_parse-not-invoked", p.origin.clone())),
         };
-        if !do_gc {
+        if !do_gc || synthetic {
             guard("accessors", || check_parse_side(&m, &ids, &da, &p.origin)).map_err(|f| {
                 Failure::new(format!("parse-map:dead-or-foreign-id:{}", f.signature), format!("{} [{}]", f.detail, p.origin))
             })??;
@@ -335,6 +337,49 @@ pub fn check(_ctx: &Ctx, input: &Input) -> CaseResult {
                 continue;
             }
         };
+        // functions of the generated profile start with a unique tag
+        // (`i64.const 0x7a6000+k; drop`): a witness of identity that needs no
+        // bijection, so it still decides when the structural comparison fails
+        {
+            let tag = |d: &ModuleD, idx: u32| -> Option<i64> {
+                let b = d.body(idx)?;
+                match (b.ops.first(), b.ops.get(1)) {
+                    (Some(o), Some(p)) if o.name == "I64Const" && p.name == "Drop" => match o.imms.first() {
+                        Some(crate::ops::Imm::I64(v)) if (0x7a6000..0x7a6000 + 100_000).contains(v) => Some(*v),
+                        _ => None,
+                    },
+                    _ => None,
+                }
+            };
+            let in_tags: Vec<Option<i64>> = (0..da.n_funcs()).map(|i| tag(&da, i)).collect();
+            let mut seen = std::collections::HashSet::new();
+            let unique = in_tags.iter().flatten().all(|t| seen.insert(*t));
+            if unique {
+                let mut judged = 0;
+                for (id, got) in ans.funcs.iter() {
+                    for (i, x) in ids.funcs.iter().enumerate() {
+                        if x != id {
+                            continue;
+                        }
+                        if let Some(t) = in_tags[i] {
+                            judged += 1;
+                            if tag(&db, *got) != Some(t) {
+                                return Err(Failure::new(
+                                    "emit-map:function",
+                                    format!(
+                                        "[{}] the emit-time map says the function of input index {} (tag {:#x}) is at index {}, the body emitted there is tagged {:?} [{}]",
+                                        if do_gc { "gc" } else { "plain" }, i, t, got, tag(&db, *got).map(|t| format!("{:#x}", t)), p.origin
+                                    ),
+                                ));
+                            }
+                        }
+                    }
+                }
+                if judged > 0 {
+                    out.label("function-tags-judged");
+                }
+            }
+        }
         let mut iso = Iso::new(&da, &db);
         iso.tolerate = vec!["memarg-offset-truncated-to-u32".into()];
         let r = if do_gc { iso.run_gc() } else { iso.run_full() };
@@ -342,13 +387,16 @@ pub fn check(_ctx: &Ctx, input: &Input) -> CaseResult {
             out.label(format!("skip:structure-mismatch(C03/C04):{}", mm.signature));
             continue;
         }
-        let mode = if do_gc { "gc" } else { "plain" };
+        let mode = if do_gc { "gc" } else if synthetic { "synthetic-names" } else { "plain" };
         macro_rules! space {
             ($name:literal, $ans:expr, $ids:expr, $bij:expr) => {
                 for (id, got) in $ans.iter() {
                     // all input indices this id was handed out for
                     let inputs: Vec<u32> = $ids.iter().enumerate().filter(|(_, x)| *x == id).map(|(i, _)| i as u32).collect();
                     if $name == "function" && inputs.iter().any(|i| iso.ambiguous_funcs.contains(i)) {
+                        continue;
+                    }
+                    if inputs.iter().any(|i| iso.ambiguous.contains(&($name, *i))) {
                         continue;
                     }
                     let want: Vec<u32> = inputs.iter().filter_map(|i| $bij.fwd.get(i).copied()).collect();
